@@ -900,8 +900,12 @@ pub trait StoreFor<T: Storable>: Configurable + private::StoreCallbacks<T> {
         if let Some(idmap) = self.idmap() {
             if idmap.resolve_temp_ids && id.starts_with(T::temp_id_prefix()) {
                 //(a temporary id only resolves for the type its letter stands for)
-                if let Some(handle) = resolve_temp_id(id) {
-                    return Ok(T::HandleType::new(handle));
+                if let Some(number) = resolve_temp_id(id) {
+                    let handle = T::HandleType::new(number);
+                    //(a number that does not fit the handle type is not the temporary id of any item)
+                    if handle.as_usize() == number {
+                        return Ok(handle);
+                    }
                 }
             }
             if let Some(handle) = idmap.data.get(id) {
